@@ -62,6 +62,14 @@ CLAIMED.update({
                    "stream after every call (nothing emitted for a rejected row, fixed: padded + declared line delimiter) and "
                    "reads the output back with cutplace.rows.",
                    "DESIGN.md section 5, C14"),
+    "C20": session("all tables <= 2 rows (thorough 3) over cells {accepted by hook, refused by hook, empty-and-allowed, refused by a "
+                   "guard} x 3 recording checks (accepting, vetoing, failing at end) x header 0..1 x limits x 3 modes x reader and "
+                   "writer, and all two-run histories on one CID",
+                   "TLC checks ProtocolHolds (the call protocol stated clause by clause from the property text) and CallsAsDocumented "
+                   "on the call log kept by the model; replay uses recording subclasses resolved by class name from the CID and "
+                   "compares the recorded call sequence with the predicted one; a sample runs in a subprocess where the classes "
+                   "come from a plugin folder via import_plugins().",
+                   "DESIGN.md section 5, C20"),
 })
 
 NOT_BUILT = "check not built yet in this round (planned: see DESIGN.md section 5)"
